@@ -118,7 +118,14 @@ def find_slice(qualname):
     for inside in ([spec["inside"]] if isinstance(spec.get("inside"), str) else spec.get("inside", [])):
         # descend into the body of the (unique) compound statement whose source starts with `inside`: the slice is a run
         # of statements of a loop / if body; the loop variables are free names of the slice like any other
-        outer = [b for b in body if ast.unparse(b).startswith(inside) and hasattr(b, "body")]
+        cands = []
+        for b in body:
+            cands.append(b)
+            x = b
+            while isinstance(x, ast.If) and len(x.orelse) == 1 and isinstance(x.orelse[0], ast.If):
+                x = x.orelse[0]      # the branches of an if / elif chain are siblings
+                cands.append(x)
+        outer = [b for b in cands if ast.unparse(b).startswith(inside) and hasattr(b, "body")]
         if len(outer) != 1:
             return None
         body = outer[0].body
@@ -128,6 +135,24 @@ def find_slice(qualname):
     if len(i0) != 1 or len(i1) != 1 or i1[0] < i0[0]:
         return None
     stmts = list(body[i0[0]: i1[0] + 1])
+    if spec.get("inside"):
+        # one iteration of a loop body: `continue` ends the iteration, i.e. the slice (with the declared result)
+        import copy as _copy
+
+        class _Cont(ast.NodeTransformer):
+            def visit_For(self, n):
+                return n
+
+            def visit_While(self, n):
+                return n
+
+            def visit_FunctionDef(self, n):
+                return n
+
+            def visit_Continue(self, n):
+                r = ast.Return(value=ast.parse(spec["result"], mode="eval").body if spec.get("result") else None)
+                return ast.copy_location(r, n)
+        stmts = [ast.fix_missing_locations(_Cont().visit(_copy.deepcopy(x))) for x in stmts]
     if spec.get("result"):
         # the value of one local after the slice is the slice's result
         stmts.append(ast.Return(value=ast.parse(spec["result"], mode="eval").body))   # a name or a tuple of names
